@@ -41,7 +41,10 @@ Inductive ptype := PAttr | PURN | PField | PNone.
    (state, district, ward: behave like text in validate) *)
 Inductive ftype := FText | FNumber | FDatetime | FOther.
 
-(* contactql.QueryNode *)
+(* contactql.QueryNode.  Since fix 6978ee3 a parsed Condition also remembers the date format of the environment it was
+   parsed in (an unexported field the text does not carry; ValueAsDate reads the value in it).  [Cond] does not model
+   it: "structurally identical" compares property type, key, operator and value; re-parsing in the same environment
+   restores the same date format, so nothing the theorems compare depends on it. *)
 Inductive node :=
 | Cond (pt : ptype) (key : text) (op : oper) (value : text)
 | Comb (op : boolop) (children : list node).
